@@ -6,6 +6,7 @@
 (*   Accurate   |q - Q(a,x)| <= 1e-12 + 1e-14 a                            *)
 (*   InUnit     0 <= q <= 1        ExactOne   x <= 0 => q = 1              *)
 (*   Monotone   x_i <= x_{i+1} => q_{i+1} <= q_i + 2 eps(a)                *)
+(*   Pure       the value does not depend on earlier or concurrent calls   *)
 (* Q(a,x) is the closed finite form of the real layer (not the algorithm   *)
 (* under test).                                                            *)
 (***************************************************************************)
@@ -21,6 +22,7 @@ PointOK(a2, x, q) ==
    /\ RClose(q, RIgamcHalf(a2, x), Eps(a2))
 ChainOK(e) ==
    /\ e.a2 \in 1..10000 /\ Len(e.xs) = Len(e.qs) /\ Len(e.xs) >= 1
+   /\ e.nondet = FALSE          \* the same chain evaluated again, later and concurrently with other shapes, gave the same bits
    /\ \A i \in 1..Len(e.xs) : PointOK(e.a2, e.xs[i], e.qs[i])
    /\ \A i \in 1..(Len(e.xs) - 1) : RLeq(e.xs[i], e.xs[i + 1]) /\ RLeq(e.qs[i + 1], RAdd(e.qs[i], RMul(2, Eps(e.a2))))
 Init == l = 1
